@@ -215,8 +215,13 @@ def _short(x):
 
 # ------------------------------------------------------------------------------------------------
 # instantiated tree (record shapes of spec/Instantiate.tla)
+SPELL = None      # when a list: s_type records (structure, spelling) of every type it projects (see pycheck.observe)
+
+
 def s_type(t):
     """instantiated type as observed: C++ spelling + the qualifier flags of the object"""
+    if SPELL is not None:
+        SPELL.append({"st": p_type(t, "params"), "cpp": t.to_cpp()})
     return {"cpp": t.to_cpp(), "const": bool(t.is_const), "q": _qual(t), "cls": ""}
 
 
